@@ -136,10 +136,29 @@ def prefix_ops(rng, fs, quick):
     return ops
 
 
+def special_punct_ops(rng, fs, quick):
+    """special strings that coincide with a punctuation character (nothing in either Options type or in
+    `is_valid_options_punctuation` relates them): Props/C08.lean `finding_special_is_point`"""
+    if not gens.has_format(fs):
+        return []
+    ops = []
+    fmts = [gens.pack(10)] + [fmtcat_rt.NOREQ[n] for n in ("rt_noreq_mant", "rt_noreq_any")]
+    for fmt in fmts:
+        f = gens.fmt_hex(fmt)
+        for ty in ("f64", "f32"):
+            p, eb = gens.FLOAT_TYPES[ty]
+            inf = ((1 << eb) - 1) << (p - 1)
+            for bits in (inf, inf | (1 << (p + eb - 1)), inf | (1 << (p - 2)), bits_of(1.5, ty), 0):
+                for (nan, infs, dp, e) in (("N", "inf", 78, 101), ("NaN", "i", 46, 105), ("n", "I", 46, 110), ("NaN", "i", 105, 101),
+                                           ("NaN", "inf", 46, 101)):
+                    ops.append("wf %s %s %x %s -" % (ty, f, bits, gens.wopts(exp=e, dp=dp, nan=gens.hexs(nan), inf=gens.hexs(infs))))
+    return ops
+
+
 def streams(tier, rng, fs, profile):
     quick = tier == "quick"
     return [("int-write", int_ops(rng, fs, quick)), ("float-write", float_ops(rng, fs, quick)),
-            ("float-prefix", prefix_ops(rng, fs, quick))]
+            ("float-prefix", prefix_ops(rng, fs, quick)), ("float-special-punct", special_punct_ops(rng, fs, quick))]
 
 
 def nontrivial(op, res):
@@ -165,7 +184,7 @@ def post(ctx, bins):
                 want = "ok %s -" % ops[i].split(" ")[3]
                 if bk != want:
                     viol.append(judges.viol(fs, profile, sname + "/reparse", ops[i], impl[i], want, "complete parser on the written bytes: " + bk))
-        elif sname in ("float-write", "float-prefix"):
+        elif sname in ("float-write", "float-prefix", "float-special-punct"):
             items, idx = [], []
             for i, (op, ir) in enumerate(zip(ops, impl)):
                 it = ir.split(" ")
@@ -212,6 +231,12 @@ def classify(v):
     fmt = int(t[2], 16)
     pre = (fmt >> 88) & 0xFF
     it = v["implementation"].split(" ")
+    if it[0] == "ok" and it[1] != "_":
+        text = bytes.fromhex(it[1]).lstrip(b"+-")
+        p, eb = gens.FLOAT_TYPES[t[1]]
+        mag = int(t[3], 16) & ((1 << (p + eb - 1)) - 1)
+        if (mag >> (p - 1)) == (1 << eb) - 1 and text and all(c in (int(t[10]), int(t[11])) for c in text):
+            return "special-string-is-punctuation"
     if not pre or it[0] != "ok":
         return None
     body = bytes.fromhex(it[1]).lstrip(b"+-")
